@@ -119,7 +119,7 @@ pub fn install(mut step: Box<dyn FnMut(Point)>) {
                     w.dev(json!({"e":"QPop","q":queue,"tok":tok,"len":len}));
                 }
                 match result {
-                    Ok(len) => w.qev(queue, json!({"e":"PopRet","ok":true,"len":len,"outdg":crate::out::fnv64(&all)})),
+                    Ok(len) => w.qev(queue, json!({"e":"PopRet","ok":true,"len":crate::core::hex(len as u64),"outdg":crate::out::fnv64(&all)})),
                     Err(e) => w.qev(queue, json!({"e":"PopRet","ok":false,"err":format!("{:?}", e)})),
                 }
                 if let Some(mut rec) = w.queues.remove(&queue) {
